@@ -175,7 +175,7 @@ func (SMRespEngine) Decode(raw json.RawMessage) (any, error) {
 	return c, err
 }
 
-var respAttacks = []string{"bitflip", "bytesub", "truncate", "do_drop", "do_dup", "do_reorder", "do_nonminimal_len", "sw_mismatch",
+var respAttacks = []string{"status-both", "splice-do87", "mac-tail", "bitflip", "bytesub", "truncate", "do_drop", "do_dup", "do_reorder", "do_nonminimal_len", "sw_mismatch",
 	"replay", "future", "cross_session", "plaintext", "bare_status", "random", "append", "wrong_ssc_rewrap", "strip_mac", "empty"}
 
 func (SMRespEngine) Gen(prop, tier string, seed uint64, yield func(c any) bool) {
@@ -363,6 +363,63 @@ func (SMRespEngine) Run(prop string, ci any) *core.Outcome {
 			forged = append(forged, g[len(g)-2:]...)
 		case "empty":
 			forged = nil
+		case "status-both":
+			// protected status and outer status changed consistently, MAC left as is
+			ts, err := chip.ParseTLVs(g[:len(g)-2])
+			if err != nil {
+				return genuine
+			}
+			ns := swSet[c.A%len(swSet)]
+			if ns == script[k].sw {
+				ns ^= 0x0100
+			}
+			for _, t := range ts {
+				if t.Tag == 0x99 {
+					forged = append(forged, chip.EncTLV(0x99, []byte{byte(ns >> 8), byte(ns)})...)
+				} else {
+					forged = append(forged, t.Raw...)
+				}
+			}
+			forged = append(forged, byte(ns>>8), byte(ns))
+		case "splice-do87":
+			// data object of an earlier genuine response spliced into this one
+			var donor []byte
+			for j := k - 1; j >= 0 && donor == nil; j-- {
+				if ts, err := chip.ParseTLVs(card.genuine[j][:len(card.genuine[j])-2]); err == nil {
+					for _, t := range ts {
+						if t.Tag == 0x87 || t.Tag == 0x85 {
+							donor = t.Raw
+						}
+					}
+				}
+			}
+			ts, err := chip.ParseTLVs(g[:len(g)-2])
+			if err != nil || donor == nil {
+				return genuine
+			}
+			had := false
+			for _, t := range ts {
+				if t.Tag == 0x87 || t.Tag == 0x85 {
+					forged = append(forged, donor...)
+					had = true
+				} else {
+					forged = append(forged, t.Raw...)
+				}
+			}
+			if !had {
+				forged = append(bytes.Clone(donor), forged...)
+			}
+			forged = append(forged, g[len(g)-2:]...)
+			if bytes.Equal(forged, g) {
+				return genuine
+			}
+		case "mac-tail":
+			// only the last bytes of the MAC object altered
+			if len(g) < 6 {
+				return genuine
+			}
+			g[len(g)-3-(c.A%4)] ^= byte(1 << uint(c.B%8))
+			forged = g
 		default:
 			return genuine
 		}
@@ -440,6 +497,10 @@ func (SMRespEngine) Run(prop string, ci any) *core.Outcome {
 			if bytes.Equal(r.Data, script[k].data) && r.Status == script[k].sw {
 				if same {
 					out.Probe("attack_was_identity")
+				} else if !sameMAC(card.delivered[k], card.genuine[k]) {
+					// same plaintext, but the MAC data object that was delivered is not the session MAC of this
+					// exchange: the response was not authenticated and must not have reached the caller
+					out.Violate("C03", "accepted-unauthenticated", sig, "attack %s(%d,%d) suite %s: delivered %x carries a MAC object different from the genuine one (%x) and was accepted", c.Attack, c.A, c.B, c.Suite, card.delivered[k], card.genuine[k])
 				} else {
 					out.Probe("benign_malleable_accepts")
 				}
@@ -778,3 +839,21 @@ func headOf(c chip.CAPDU, n int) []byte {
 // allocBudget: generous linear bound on bytes allocated while processing n input bytes
 // (slog argument formatting, hex strings and APDU logs included).
 func allocBudget(n int) uint64 { return 8<<20 + 2048*uint64(n) }
+
+// sameMAC reports whether the delivered response still carries the genuine MAC data object
+// (the value of the genuine DO'8E' appears in it unchanged; its length octets may be re-encoded).
+func sameMAC(delivered, genuine []byte) bool {
+	if len(genuine) < 4 {
+		return false
+	}
+	ts, err := chip.ParseTLVs(genuine[:len(genuine)-2])
+	if err != nil {
+		return false
+	}
+	for _, t := range ts {
+		if t.Tag == 0x8E {
+			return bytes.Contains(delivered, t.Val)
+		}
+	}
+	return false
+}
